@@ -285,6 +285,30 @@ func propC16(w *World, r *Report, tier string) {
 			r.OK("prov.contents")
 		}
 	}
+	// ---- the serialisation is the caller's own: the returned octets are backed only by memory
+	// allocated during this call (E4 roots), so a later Marshal cannot change them
+	{
+		r.Site("pco.fresh-result")
+		e := NewEffects(w)
+		fn := w.SSAFunc(fm)
+		e.Summaries([]*ssa.Function{fn})
+		s := e.Summary(fn)
+		bad := ""
+		if s == nil || len(s.Results) == 0 {
+			bad = "no summary"
+		} else {
+			for root := range s.Results[0] {
+				if root.Kind != "fresh" {
+					bad = root.String()
+				}
+			}
+		}
+		if bad != "" {
+			r.Fail("pco.fresh-result", FuncName(fm), "result 0", fm.Pos(), "the returned octets share memory with "+bad+" (not only with memory allocated by this call): a later call can overwrite an earlier result", nil)
+		} else {
+			r.OK("pco.fresh-result")
+		}
+	}
 	_ = token.NoPos
 }
 
